@@ -1,5 +1,5 @@
 """C03 — Angle: canonical range, congruence mod 360 and closed arithmetic."""
-import math, sys
+import math, re, sys
 from fractions import Fraction as Fr
 from vlib import common as K
 from vlib.impl import load
@@ -58,7 +58,9 @@ CLAUSES = {
     "binary operators (+ - * / % **), reflected and in-place: result = new Angle(default tolerance) holding red360(a op b)":
         "proved [ideal, all real a, b / float y / int z: C03_operators_ideal (43 equations) + C03_operators_more_ideal (% by a positive int)]; proved [B64, EVERY finite float, + - * / incl. reflected and in-place: C03_addsub_b64, C03_operators_b64 - red360(RN(a op b)), overflow -> OverflowError].  NOT in a theorem (searched only): % with modulus < 0, ** with base <= 0 or int exponent, reflected ** by an int",
     "operands unchanged":
-        "model: operators are pure functions of immutable values (translator alias analysis, trusted); searched on the implementation with before/after snapshots of both operands for every operator x operand-type x plain/in-place",
+        "model: operators are pure functions of immutable values (translator alias analysis, trusted); searched on the implementation with before/after snapshots of both operands for every operator x operand-type x plain/in-place, and over CALL SEQUENCES (next clause)",
+    "views = value on one object across call sequences (no stale state): after every mutator - set() in all input forms, set_radians, set_ra, to_positive, += -= *= /= %= **=, set_tolerance - every view (rad, float, int, call, dms_tuple, ra_tuple, get_ra, dms_str, ra_str, str, repr, abs, neg, round, comparisons, tolerance) equals bit for bit that of a freshly constructed Angle of the same value; the object left behind by an in-place operator is unchanged":
+        "searched only (keys sequence-stale-view, sequence-inplace-changed-operand): every view x every mutator form as view -> mutator -> all views, plus 300 (quick) / 2500 random sequences of 2-5 steps per run.  The model has no object identity or hidden attributes (value semantics), so a memoised attribute is invisible to the theorems beyond breaking the translation (stage G/P)",
     "% follows the documented reading sign(a)*(|a| mod b); number % Angle converts the number to an Angle first (400 % Angle(70) = 40)":
         "proved [ideal, b > 0 (Angle, float, positive int)]; b < 0: searched only",
     "division by an Angle equal to 0 within tolerance / a number equal to 0 raises ZeroDivisionError (also reflected, in-place, %)":
@@ -554,6 +556,121 @@ class Oracle:
                         self.fail("compare-reflected", "%s = %r, the values give %r" % (expr, r if ex is None else ex, w), expr)
 
 
+# ---- call sequences on ONE object: every view must always equal that of a fresh Angle of the same value
+SEQ_VIEWS = ["a.rad()", "float(a)", "int(a)", "a()", "a.dms_tuple()", "a.ra_tuple()", "a.get_ra()", "a.dms_str()",
+             "a.dms_str(False, 3)", "a.ra_str()", "a.ra_str(False, 2)", "str(a)", "repr(a)", "abs(a)()", "(-a)()",
+             "round(a, 3)()", "a == 12.5", "a != Angle(12.5)", "a < 100", "a <= Angle(-3.0)", "a > -7.25", "a >= Angle(200.0)",
+             "a.get_tolerance()", "(a + 0.0)()", "(a * 1)()"]
+
+
+def seq_mutators(rng):
+    """source lines acting on the variable `a` (a fresh choice of arguments per call)"""
+    x = rng.choice([rng.uniform(-1000, 1000), float(rng.randint(-720, 720)), rng.randint(-720, 720), -87.32, 359.99999999999994,
+                    -1e-20, 0.0, 400.5, -360.0])
+    d, m, sec = rng.randint(0, 400), rng.randint(0, 70), rng.choice([rng.uniform(0, 70), rng.randint(0, 59), 59.99999999999999])
+    sg = rng.choice([1, -1])
+    y = rng.choice([rng.uniform(-50, 50), rng.randint(1, 9), 2.5, -3, 0.5, 360, 1e-3])
+    yp = abs(y) if y != 0 else 1.5
+    return ["a.set(%r)" % (x,), "a.set(%r)" % (int(x),), "a.set(%r, %r, %r)" % (sg * d, m, sec), "a.set((%r, %r, %r))" % (d, sg * m, sec),
+            "a.set([%r, %r, %r])" % (d, m, sg * sec), "a.set((%r, %r, %r, %r))" % (d, m, sec, sg), "a.set(%r, %r, %r, %r)" % (d, m, sec, sg),
+            "a.set(%r, %r)" % (sg * d, m), "a.set([%r])" % (x,), "a.set(Angle(%r))" % (x,), "a.set()",
+            "a.set(%r, radians=True)" % (x / 50.0,), "a.set(%r, ra=True)" % (x / 15.0,), "a.set(%r, %r, %r, ra=True)" % (d % 24, m % 60, sec),
+            "a.set_radians(%r)" % (x / 50.0,), "a.set_ra(%r)" % (x / 15.0,), "a.set_ra(%r, %r, %r)" % (sg * (d % 24), m % 60, sec),
+            "a.to_positive()", "a += %r" % (y,), "a -= %r" % (y,), "a *= %r" % (y,), "a /= %r" % (yp,), "a %%= %r" % (yp,),
+            "a **= %r" % (rng.choice([2, 0.5, 1.5, 3]),), "a += Angle(%r)" % (x,), "a -= Angle(%r)" % (x,), "a *= Angle(%r)" % (y,),
+            "a.set_tolerance(%r)" % (rng.choice([1e-6, 1e-12, 0.5]),)]
+
+
+def _norm(v, A):
+    if isinstance(v, A): return ("Angle", _norm(v(), A), _norm(v.get_tolerance(), A))
+    if isinstance(v, bool): return v
+    if isinstance(v, float): return v.hex() if v == v else "nan"
+    if isinstance(v, (tuple, list)): return tuple(_norm(x, A) for x in v)
+    return v
+
+
+def _views(obj, A):
+    out = {}
+    for e in SEQ_VIEWS:
+        try:
+            out[e] = _norm(eval(e, {"a": obj, "Angle": A}), A)
+        except Exception as ex:      # noqa
+            out[e] = ("EXC", type(ex).__name__)
+    return out
+
+
+def run_sequence(O, start, steps):
+    """steps: source lines (views are expressions, mutators statements).  After EVERY mutator all views of the
+    object are compared bit for bit with those of a freshly constructed Angle holding the same value and tolerance."""
+    A = O.A
+    env = {"Angle": A, "a": A(start)}
+    done = ["a = Angle(%r)" % (start,)]
+    for st in steps:
+        is_view = st in SEQ_VIEWS
+        old = env["a"]
+        snap = None if is_view else _views(old, A)
+        O.n += 1
+        try:
+            if is_view: eval(st, env)
+            else: exec(st, env)
+        except (ZeroDivisionError, OverflowError, TypeError, ValueError):
+            return                      # outside the domain of that step; covered by the operator clauses
+        done.append(st)
+        if is_view: continue
+        a = env["a"]
+        O.nontriv += 1
+        seq = "; ".join(done)
+        if not isinstance(a, A):
+            O.fail("sequence-type", "after `%s` the name a holds %r" % (seq, a), seq); return
+        if a is not old and _views(old, A) != snap:          # an in-place operator must leave the old object alone
+            now = _views(old, A)
+            bad = [k for k in snap if snap[k] != now[k]][0]
+            O.findings.append({"key": "sequence-inplace-changed-operand", "what": "after `%s` the ORIGINAL object changed: %s was %r, now %r"
+                               % (seq, bad, snap[bad], now[bad]), "input": seq,
+                               "replay": "PYTHONPATH=/repo /venv/bin/python -c \"from pymeeus.Angle import Angle; %s; print('see sequence')\"" % seq})
+            return
+        v = a()
+        if not (isinstance(v, float) and -360.0 < v < 360.0):
+            return                      # range violations are reported by the construction / operator clauses
+        fresh = A(v)
+        if fresh().hex() != v.hex():
+            return
+        fresh.set_tolerance(a.get_tolerance())
+        got, want = _views(a, A), _views(fresh, A)
+        for k in SEQ_VIEWS:
+            if got[k] != want[k]:
+                if sum(1 for f in O.findings if f["key"] == "sequence-stale-view") < 3:
+                    O.findings.append({
+                        "key": "sequence-stale-view",
+                        "what": "after `%s` the view %s gives %r, a fresh Angle(%r) gives %r" % (seq, k, got[k], v, want[k]),
+                        "input": seq,
+                        "replay": "PYTHONPATH=/repo /venv/bin/python -c \"from pymeeus.Angle import Angle; %s; print(repr(%s), repr(%s))\""
+                                  % (seq, k, re.sub(r"\ba\b", "Angle(a())", k))})
+                return
+
+
+def search_sequences(O, rng, big):
+    starts = [-87.32, 12.5, 359.99999999999994, -1e-20, 0.0, -200.25]
+    # deterministic: view -> mutator -> all views, for every view x every mutator form
+    muts = seq_mutators(rng)
+    det = [("a.rad()", "a.to_positive()"), ("a.dms_str()", "a.set((10, 20, 30.5))"), ("a.rad()", "a += 5"),
+           ("a.ra_str()", "a.set_ra(3.5)"), ("float(a)", "a *= 2"), ("a.get_ra()", "a.set(1.0, radians=True)")]
+    for (v, m) in det:
+        for st in starts[:3]:
+            run_sequence(O, st, [v, m])
+    for v in SEQ_VIEWS:
+        for m in muts:
+            run_sequence(O, rng.choice(starts), [v, m])
+    # random sequences of 2..5 steps, views and mutators mixed (a view first, so that something can go stale)
+    for _ in range(2500 if big else 300):
+        k = rng.randint(2, 5)
+        steps = [rng.choice(SEQ_VIEWS)]
+        for _ in range(k - 1):
+            steps.append(rng.choice(SEQ_VIEWS) if rng.random() < 0.4 else rng.choice(seq_mutators(rng)))
+        if all(x in SEQ_VIEWS for x in steps): steps[-1] = rng.choice(seq_mutators(rng))
+        run_sequence(O, rng.choice(starts + [rng.uniform(-360, 360)]), steps)
+
+
 def search(rng, tier, deep):
     mods = load(["Angle"])
     Angle = mods["Angle"].Angle
@@ -601,11 +718,12 @@ def search(rng, tier, deep):
         b = rng.choice([rng.choice(av), a, a + 5e-11, a - 5e-11, a + 1.5e-10, math.nextafter(a, 400)])
         if abs(b) >= 360: b = a
         O.compare(a, b, rng.choice([rng.choice(nv), a, a + 5e-11, a - 2e-10, int(a)]))
+    search_sequences(O, rng, big)
     stats = {"evaluations": O.n, "distinct_nontrivial": O.nontriv,
              "rule": ("numbers: k*360 +-0..2 ulp (small, random and 1e12-size k), denormals, +-1e-20, +-1e15, ints up to 1e15, "
                       "log-uniform floats; sexagesimal triples with fractional/overflowing/negative pieces and former "
                       "counterexamples; every operator x (Angle,Angle)/(Angle,number)/(number,Angle) x plain/in-place with "
-                      "before/after operand snapshots; zero divisors; unary; comparisons; exact Fraction reference, "
+                      "before/after operand snapshots; zero divisors; unary; comparisons; call sequences view->mutator->all views vs a fresh Angle; exact Fraction reference, "
                       "tolerance 1e-9 degree x max(1,|exact|); non-trivial = value checks performed"),
              "samples": [{"input": "Angle(359, 59, 59.99999999999999)", "checked": "strictly inside (-360,360), sign, congruent to 1295999.99999999999/3600"},
                          {"input": "Angle(-1e-20).to_positive()", "checked": "in [0,360), congruent, returns self"},
